@@ -10,6 +10,7 @@ subscripts of other actuals).  Every callee local is written before it is read."
 CALLER_SCALARS = ["i", "j", "n", "t", "k"]
 ARR1 = {"a": (0, 10), "b": (2, 12), "c": (1, 10)}
 MM = ((0, 5), (2, 7))
+CALLER_LOCALS = ["i", "j", "n", "t", "k", "ii", "jj", "kk", "a", "b", "c", "mm"]
 
 
 class Case:
@@ -124,7 +125,12 @@ class CalleeGen:
             pool.remove("g")
             pool.insert(0, "g")
         ns = r.choice([0, 1, 1, 2, 2, 3])
-        if self.o.get("outer") or self.o.get("loopvar"):
+        if self.o.get("clash"):
+            cl = [x for x in pool if x in CALLER_LOCALS]
+            if cl:
+                pool.remove(cl[0])
+                pool.insert(0, cl[0])
+        if self.o.get("outer") or self.o.get("loopvar") or self.o.get("clash"):
             ns = max(ns, 1)     # loopvar: the DO-variable formal is not assignable inside its loop; keep a target
         self.lscal = pool[:ns]
         pool = pool[ns:]
@@ -317,8 +323,10 @@ def gen_case(rng):
         kind, opts = "bump", {"bump": True}
     elif x < 0.72:
         kind, opts = "loopvar", {"loopvar": True}
-    elif x < 0.80:
+    elif x < 0.78:
         kind, opts = "outer", {"outer": True}
+    elif x < 0.84:
+        kind, opts = "fresh", {"clash": True}
     else:
         kind = r.choice(["static", "stride", "nargs", "rank", "container", "arrayexpr"])
         opts = {kind: True}
@@ -329,6 +337,15 @@ def gen_case(rng):
     sub, call = cg.build()
     if kind == "static" and not cg.lscal:
         kind = "plain"
+    # module variables named like the candidates `<name>_1`, `<name>_2` that merge tries for a clashing callee local:
+    # a renamed local must not take (and so hide) a name the caller sees from the enclosing scope
+    xvars = []
+    if kind == "fresh" or r.random() < 0.2:
+        clashing = [l for l in cg.lscal + [a for a, _ in cg.larr] + cg.lloop if l in CALLER_LOCALS]
+        for l in (clashing or [r.choice(["i", "t", "n", "q"])])[:2]:
+            xvars.append(f"{l}_1")
+            if r.random() < 0.35:
+                xvars.append(f"{l}_2")
     init = [f"    i = {r.randint(2, 3)}", f"    j = {r.randint(2, 3)}", f"    n = {r.randint(0, 5)}",
             f"    t = {r.randint(0, 4)}", f"    k = {r.randint(0, 9)}"]
     for arr, (l, u) in ARR1.items():
@@ -342,7 +359,9 @@ def gen_case(rng):
              "    enddo"]
     if modvar:
         init.append(f"    g = {r.randint(1, 9)}")
-    pre = []
+    for xv in xvars:
+        init.append(f"    {xv} = {r.randint(10, 40)}")
+    pre = [f"    {xv} = {xv} + {r.choice(['n', 'i', '1'])}" for xv in xvars if r.random() < 0.7]
     for _ in range(r.choice([0, 0, 1, 2])):
         pre.append("    " + r.choice(["n = n + 1", "a(3) = t", "t = t + i", "c(2) = n - 1", "mm(2, 3) = 5"]
                                      + (["g = g + n"] if modvar else [])))
@@ -357,12 +376,18 @@ def gen_case(rng):
     post = []
     if r.random() < 0.4:
         post.append("    " + r.choice(["t = t + i", "n = n + j", "a(1) = i"] + (["t = t + g"] if modvar else [])))
+    for xv in xvars:
+        if r.random() < 0.7:
+            post.append("    " + r.choice([f"t = t + {xv}", f"{xv} = {xv} * 2 + t", f"n = n - {xv}"]))
     prints = ["    print *, i, j, n, t, k", "    print *, a", "    print *, b", "    print *, c", "    print *, mm"]
     if modvar:
         prints.append("    print *, g")
     lines = ["module m", "  implicit none"]
     if modvar:
         lines.append("  integer :: g")
+    for xv in xvars:
+        prints.append(f"    print *, {xv}")
+        lines.append(f"  integer :: {xv}")
     lines += ["contains", "  subroutine main()", "    integer :: i, j, n, t, k, ii, jj, kk",
               "    integer, dimension(0:10) :: a", "    integer, dimension(2:12) :: b", "    integer, dimension(10) :: c",
               "    integer, dimension(0:5,2:7) :: mm"]
@@ -377,17 +402,31 @@ def gen_case(rng):
 WRAPPER = "program p\n  use m\n  call main()\nend program p\n"
 
 
+def modvars_of(src):
+    """module-level integer variables of a generated / corpus source, in declaration (= print) order"""
+    import re
+    head = src.split("contains")[0]
+    return re.findall(r"^  integer :: (\w+)\s*$", head, re.M)
+
+
 def queries(names, modvar):
+    """`modvar`: list of module variable names (printed last, one per line), or legacy bool for `g`"""
+    if isinstance(modvar, bool):
+        modvar = ["g"] if modvar else []
+    return _queries(names, modvar)
+
+
+def _queries(names, modvars):
     q = [(names.id(s),) for s in CALLER_SCALARS]
     for arr, (l, u) in ARR1.items():
         q += [(names.id(arr), x) for x in range(l, u + 1)]
     q += [(names.id("mm"), x, y) for y in range(MM[1][0], MM[1][1] + 1) for x in range(MM[0][0], MM[0][1] + 1)]
-    if modvar:
-        q.append((names.id("g"),))
+    for v in modvars:
+        q.append((names.id(v),))
     return q
 
 
-def fixed_case(call_lines, sub_lines, modvar=False):
+def fixed_case(call_lines, sub_lines, modvar=False, xvars=()):
     """hand-written witness in the generator's frame (fixed initial values)"""
     init = ["    i = 2", "    j = 3", "    n = 1", "    t = 2", "    k = 7",
             "    do ii = 0, 10", "      a(ii) = mod(ii * 3 + 1, 7) - 2", "    enddo",
@@ -396,10 +435,12 @@ def fixed_case(call_lines, sub_lines, modvar=False):
             "    do jj = 2, 7", "      do ii = 0, 5", "        mm(ii, jj) = mod(ii * 2 + jj * 3, 7)", "      enddo", "    enddo"]
     if modvar:
         init.append("    g = 4")
+    init += [f"    {xv} = {100 + 10 * k}" for k, xv in enumerate(xvars)]
     prints = ["    print *, i, j, n, t, k", "    print *, a", "    print *, b", "    print *, c", "    print *, mm"]
     if modvar:
         prints.append("    print *, g")
-    lines = ["module m", "  implicit none"] + (["  integer :: g"] if modvar else [])
+    prints += [f"    print *, {xv}" for xv in xvars]
+    lines = ["module m", "  implicit none"] + (["  integer :: g"] if modvar else []) + [f"  integer :: {xv}" for xv in xvars]
     lines += ["contains", "  subroutine main()", "    integer :: i, j, n, t, k, ii, jj, kk",
               "    integer, dimension(0:10) :: a", "    integer, dimension(2:12) :: b", "    integer, dimension(10) :: c",
               "    integer, dimension(0:5,2:7) :: mm"]
